@@ -148,6 +148,15 @@ def P_C02(ctx, log, outcome='ok', **kw):
         for k in dem:
             if cnt.get(k, 0) != 1:
                 out.append(f'demanded step {k[0]}@{k[1]} was executed {cnt.get(k, 0)} times')
+    elif outcome in ('internal:backwards', 'internal:past') and kw.get('case') is not None:
+        # the scheduler itself gave up (its own consistency assertion, no simulator misbehaved): what had been demanded by
+        # then is lost.  (Non-convex group scenarios are left to the known finding F9: the tables there depend on set order.)
+        from . import tracelib
+        if tracelib.convex(kw['case']):
+            cnt = collections.Counter((sid, t) for _, sid, t, _, _ in begins)
+            lost = [k for k in dem if cnt.get(k, 0) == 0 and 0 <= k[1][0] < ctx.until]
+            if lost:
+                out.append(f'the scheduler aborted with its own assertion ({outcome}) and the demanded step {lost[0][0]}@{lost[0][1]} (and {len(lost) - 1} more) was never executed')
     return out
 
 
@@ -272,6 +281,42 @@ def P_C03(ctx, log, cache=True, **kw):
             if got_nosd != exp:
                 out.append(f'{sid}@{tuple(l[2])}: inputs {got_nosd} but the data-flow semantics gives {exp}')
             prev[sid] = tau
+    if not out and kw.get('outcome', 'ok') == 'ok' and kw.get('case') is not None:
+        out += P_C03_absolute(ctx, log, kw['case'])
+    return out
+
+
+def P_C03_absolute(ctx, log, case):
+    """'the most recent value the source produced whose delayed output time is at or before t' over the WHOLE run, not only
+    over what had been produced when the step began: for a plain connection between two simulators of the same group (delay
+    zero in every tier) from a persistent attribute of a source that never stamps its outputs with another time, a step at
+    tiered time T must be given the source's last output of a step at or before T - whenever in the run that output was
+    produced.  (The clause above takes the outputs produced so far; it agrees with this one exactly when the consumer
+    waited for its provider.)  Failures are marked ABS."""
+    out = []
+    grp = {f'S{k}': tuple(case['grp'][k]) for k in range(case['n'])}
+    cur = {}; prod = collections.defaultdict(list); explicit = set()
+    for l in log:
+        if l[0] == 'BEGIN': cur[l[1]] = tuple(l[2])
+        elif l[0] == 'DATA':
+            if l[1] in cur:
+                if l[2] != cur[l[1]][0]: explicit.add(l[1])
+                prod[l[1]].append((cur[l[1]], dict(l[3])))
+    for l in log:
+        if l[0] != 'BEGIN': continue
+        sid, T = l[1], tuple(l[2])
+        got = {a: dict(m) for a, m in l[4].get('e', {}).items()}
+        for e in ctx.edges:
+            if e['b'] != sid or e['kind'] != 'p' or not e['persistent'] or e['init'] or e['a'] in explicit or grp[e['a']] != grp[sid] or e['a'] == sid: continue
+            if sum(1 for x in ctx.edges if x['b'] == sid and x['da'] == e['da'] and x['a'] == e['a']) != 1: continue
+            due = [d for (ts, d) in prod[e['a']] if ts <= T and e['sa'] in d]
+            if not due: continue
+            want = due[-1][e['sa']]
+            have = got.get(e['da'], {}).get(e['a'] + '.e', 'MISSING')
+            if have != want:
+                out.append(f"ABS {sid}@{T}: attribute {e['da']} shows {have!r} from {e['a']}, but the last output of {e['a']} for a step at or before {T} is {want!r} "
+                           f"(produced later in the run: the step did not wait for it)")
+                return out
     return out
 
 
@@ -294,6 +339,15 @@ def P_C09(ctx, log, outcome_kind='ok', outcome_sim=None, maxloop=100, **kw):
         # a scenario with same-time (weak) connections whose run stalls: neither is the loop stopped with a
         # SimulationError nor does time advance (non-convex scenarios stall under lazy stepping: known finding F21 of C05)
         out.append('run() stalled in a scenario with same-time loops: no SimulationError and simulation time does not advance (deadlock)')
+    if outcome_kind in ('internal:backwards', 'internal:past') and kw.get('case') is not None and tracelib.convex(kw['case']):
+        # the scheduler's own assertion ended the run while an iteration of a same-time loop was still demanded: the loop is
+        # neither allowed to settle nor stopped by the guard with a SimulationError
+        dem = demands_of(ctx, log)
+        begun = {(l[1], tuple(l[2])) for l in log if l[0] == 'BEGIN'}
+        pending = [k for k in dem if k not in begun and any(x > 0 for x in k[1][1:]) and all(x < maxloop for x in k[1][1:])]
+        if pending:
+            out.append(f'a same-time loop was interrupted by the scheduler\'s own assertion ({outcome_kind}): the demanded sub-step {pending[0][0]}@{pending[0][1]} was never executed, '
+                       f'no SimulationError names a simulator and simulation time does not advance')
     if outcome_kind == 'loop':
         dem = demands_of(ctx, log)
         begun = {(l[1], tuple(l[2])) for l in log if l[0] == 'BEGIN'}
